@@ -1139,7 +1139,11 @@ func (g *genCtx) genDoc() {
 	// lists to merge), referenced from several places: the combinator is merged
 	// more than once in a run and must come out the same each time
 	var comboDefRefs []string
-	if comboDefs && (g.feat.AllOf || g.feat.AnyOf) && !isSpecial(f) && g.pct("combodef", 35) {
+	cdPct := 35
+	if SelfNamedDefs {
+		cdPct = 60 // (C12 worlds) the shape seeded change s16 needs; the newer C12 features had thinned it out at seed 1
+	}
+	if comboDefs && (g.feat.AllOf || g.feat.AnyOf) && !isSpecial(f) && g.pct("combodef", cdPct) {
 		kw := "allOf"
 		if !g.feat.AllOf || (g.feat.AnyOf && g.pct("combodefany", 30)) {
 			kw = "anyOf"
